@@ -275,6 +275,13 @@ def run(chk, replay=None):
             qs = sysd['qs']
             cand = [q for q in qs if q.kind != 'voi']
             marked = rng.sample(cand, min(len(cand), rng.randint(1, 3)))
+            # every other time one of the marks is a quantity that others read (a computed constant first: its consumers must stop being constants)
+            read = set(k for p in qs for k in M.leaves(p.rhs, set()))
+            hubs = [q for q in cand if q.idx in read and q.kind == 'cconst'] or [q for q in cand if q.idx in read]
+            if hubs and rng.random() < 0.5:
+                h = rng.choice(hubs)
+                if h not in marked:
+                    marked[0] = h
             # who depends (transitively) on whom
             deps = {q.idx: set(M.leaves(q.rhs, set())) | ({q.init_from} if q.init_from is not None else set()) for q in qs}
             def closure(k, seen=None):
@@ -315,6 +322,11 @@ def run(chk, replay=None):
                         stats['frame_classes'] += 1
                         if got != b:
                             oracle.append(('quantity v%d does not depend on an external variable but its type changes from %s to %s' % (q.idx, b, got), text, ext))
+                    elif q.rhs is not None and q.kind in ('cconst', 'alg') and any(m.idx in M.leaves(q.rhs, set()) for m in marked):
+                        # what reads an external variable can only be computed once the callback has supplied it
+                        stats['readers_of_externals'] = stats.get('readers_of_externals', 0) + 1
+                        if got != ['algebraic']:
+                            oracle.append(('quantity v%d reads the external variable(s) %s but is reported as %s (was %s), expected algebraic' % (q.idx, ['v%d' % m.idx for m in marked if m.idx in M.leaves(q.rhs, set())], got, b), text, ext))
             # a state or constant initialised by the name of a marked variable: see known_findings.json (C20-initialised-from-external)
             init_from_marked = [q for q in qs if q.init_from is not None and qs[q.init_from] in marked and q not in marked]
             # 3. execution with a recording callback
